@@ -37,4 +37,29 @@ def load (ok : String → Bool) (report : String → Text) : List String → Out
   | [] => .table
   | s :: rest => if ok s then load ok report rest else .error (report s)
 
+/-- Outcome of one stage when the input may also be nested deeper than the interpreter's recursion limit. -/
+inductive StageOut where
+  | ok
+  | failed
+  | overflow
+  deriving DecidableEq, Repr
+
+inductive OutG where
+  | table
+  | error (msg : Text)
+  | crash
+  deriving DecidableEq, Repr
+
+/-- `load_model` over stages which recurse over the meta-model: a stage that exhausts the recursion limit raises
+`RecursionError`; under `try: … except RecursionError: return None, <report>` (`guarded s`) the report `tooDeep`
+comes back, otherwise the exception escapes (`crash` — an explicit outcome, not hidden by totality). -/
+def loadG (guarded : String → Bool) (res : String → StageOut) (report : String → Text) (tooDeep : Text) :
+    List String → OutG
+  | [] => .table
+  | s :: rest =>
+    match res s with
+    | .ok => loadG guarded res report tooDeep rest
+    | .failed => .error (report s)
+    | .overflow => if guarded s then .error tooDeep else .crash
+
 end AasVerif.FrontEnd
